@@ -114,6 +114,16 @@ CLAIMED = {
             "0, 1, 2 environment deviations)",
             "bounded by the listed names/sizes/schedules; a crash is modelled as the failing call returning an error; "
             "trusted: the interposition shim sees every relevant call CPython makes, CPython, the harness"),
+    "C07": ("History exploration of the document alphabet, the generic shape sweep and RDF-specific families (15 relation "
+            "kinds x argument masks x anonymous/identified x 11 extras; all ordered pairs of 9 relation shapes sharing a "
+            "subject; documents with bundles), restricted to the PROV-O-expressible space by one counted predicate per "
+            "clause of the quantifier; every document is written as TriG and read back under ascending and descending "
+            "blank-node labels (rdflib's uuid4 source is owned by the harness); the set observation must equal that of "
+            "unified(), no exception, verdict independent of blank-node order.", TECH + "; exhaustive shape sweeps; "
+            "blank-node order as an enumerated environment dimension",
+            NOTE + "; rdflib is exercised, not verified; two sub-spaces that PROV-O cannot distinguish are filtered and "
+            "counted (R0: identified alternate/specialization/membership, R8b: plain + qualified association to the same "
+            "agent), see DESIGN.md"),
 }
 
 NA = {}
